@@ -165,3 +165,22 @@ CHECKS["C14"] = dict(
     assumptions=["inputs longer than 6 arbitrary bytes are covered only as deviations (<= 2 substitutions, any truncation) "
                  "of valid encodings up to 400 bytes"],
 )
+
+CHECKS["C09"] = dict(
+    name="packed", harness=["checks/packed.c"], libs=[], engine="E-enum + E-bfs",
+    configs={"quick": ["pinned", "debug"], "thorough": ["pinned", "debug", "asan"]},
+    shards={"pinned": 16, "debug": 16, "asan": 16},
+    deadline={"quick": 150, "thorough": 1500},
+    rule="120 instantiations generated from src/varintPacked.h (every width 1-32 x slot type 8/16/32/64 with width <= slot + "
+         "gcd(width, slot), the compact flavour where its automatic slot type satisfies the same rule, and the six parameter "
+         "sets used in the tree); isolation: every element index of an array covering three periods of lcm(width, slot) x value "
+         "alphabet (all values for width <= 8 quick / 12 thorough, else boundary + walking-bit values) x 4 backgrounds; sorted "
+         "semantics: BFS to closure over sorted multisets of <= 7 elements on a 5-value alphabet; class = (width, slot, flavour, "
+         "start bit in slot, one-/two-slot) and one class per instance for the sorted closure",
+    explanation="E-enum: after Set/SetIncr/SetHalf the whole storage including guard bytes equals a bit-array model and Get of "
+                "every element equals the model; storage re-placed so that the slots the element occupies touch PROT_NONE pages "
+                "on either side (any access to a slot it does not occupy faults). E-bfs: every reachable sorted state x every "
+                "operation compared with a plain sorted array, Member = first equal or -1, BinarySearch = lower bound",
+    technique="exhaustive enumeration of (instantiation, position, value, background) plus explicit-state closure of the sorted-array state space",
+    assumptions=["widths above 32 are outside the property; the bit-array model is trusted"],
+)
